@@ -287,8 +287,8 @@ def main(run) -> None:
         G.systematic_clean(rng),
         G.systematic_epub_only(rng),
         G.systematic_risky(rng),
-        G.random_clean(rng, run.n(250, 9000)),
-        G.random_risky(rng, run.n(60, 2500)),
+        G.random_clean(rng, run.n(1200, 30000)),
+        G.random_risky(rng, run.n(250, 8000)),
     ))
     for b in bodies:        # generator self-check: twin shares the ground truth, tokens are really in the document
         d = b.render()
